@@ -308,6 +308,31 @@ where
         let mut stream_stopped = None;
 
         loop {
+            // Decode from what is already buffered before asking the transport for more: the
+            // bytes of this varint may have arrived together with the previous one, and the
+            // transport may have nothing more to deliver for a long time.
+            {
+                let mut buf = self.stream.buf_mut();
+                if self.expected.is_none() && buf.remaining() >= 1 {
+                    self.expected = Some(VarInt::encoded_size(buf.chunk()[0]));
+                }
+
+                if let Some(expected) = self.expected {
+                    if buf.remaining() >= expected {
+                        let result = VarInt::decode(&mut buf).map_err(|_| {
+                            PollTypeError::InternalError(InternalConnectionError::new(
+                                Code::H3_INTERNAL_ERROR,
+                                "Unexpected end parsing varint".to_string(),
+                            ))
+                        })?;
+                        // the next varint has its own length
+                        self.expected = None;
+
+                        return Poll::Ready(Ok((result, stream_stopped)));
+                    }
+                }
+            }
+
             if stream_stopped.is_some() {
                 return Poll::Ready(Err(PollTypeError::EndOfStream));
             }
@@ -331,28 +356,6 @@ where
                     Some(StreamEnd::Other)
                 }
             };
-
-            let mut buf = self.stream.buf_mut();
-            if self.expected.is_none() && buf.remaining() >= 1 {
-                self.expected = Some(VarInt::encoded_size(buf.chunk()[0]));
-            }
-
-            if let Some(expected) = self.expected {
-                if buf.remaining() < expected {
-                    continue;
-                }
-            } else {
-                continue;
-            }
-
-            let reult = VarInt::decode(&mut buf).map_err(|_| {
-                PollTypeError::InternalError(InternalConnectionError::new(
-                    Code::H3_INTERNAL_ERROR,
-                    "Unexpected end parsing varint".to_string(),
-                ))
-            })?;
-
-            return Poll::Ready(Ok((reult, stream_stopped)));
         }
     }
 
